@@ -1319,6 +1319,32 @@ pub fn threads(r: &Req, b: &Built) -> Result<String, String> {
             after = run_seq(a);
         }
     }
+    // history / aliasing phase: ONE buffer is refilled in place with each haystack in turn and
+    // searched; a result that depends on an earlier search over the same memory shows here
+    let mut alias_bad: Option<String> = None;
+    {
+        let maxlen = hays.iter().map(|h| h.len()).max().unwrap_or(0);
+        let mut buf = vec![0u8; maxlen.max(1)];
+        let mut run_alias = |s: &dyn Srch| {
+            for round in 0..3usize {
+                for (h, hay) in hays.iter().enumerate() {
+                    buf[..hay.len()].copy_from_slice(hay);
+                    let k = h * 3 + (round + h) % 3;
+                    let got = one_op(s, k, &buf[..hay.len()], std);
+                    if got != before[k] && alias_bad.is_none() {
+                        alias_bad = Some(format!("inplace-op{}:{}!={}", k, got, before[k]));
+                    }
+                }
+            }
+        };
+        match b {
+            Built::Nc(a) => run_alias(&Low(a)),
+            Built::C(a) => run_alias(&Low(a)),
+            Built::Dfa(a) => run_alias(&Low(a)),
+            Built::Top(a) => run_alias(a),
+        }
+    }
+    let bad = bad.or(alias_bad);
     let finds: Vec<String> = (0..hays.len()).map(|h| before[h * 3].clone()).collect();
     let conc_s = match bad {
         Some(d) => format!("diff:{}", d),
